@@ -15,12 +15,13 @@ func init() {
 			ID: "C24", Title: "Connection collisions leave at most one established session", Level: "other",
 			Technique:   "inhabited-case check of every type switch on the FSM state interface (case types vs. the dynamic types the constructors produce), truth table of the collision tie-break, guard/ordering checks of the collision path",
 			DesignRef:   "DESIGN.md §4 C24",
-			Decided:     "(1) every case of a type switch on a `state` value in package server names a type that some state constructor actually produces (pointer types): a case on a type no FSM ever holds is constantly false, which is how collision detection was dead; (2) shouldCeaseOnCollision compares the BGP identifiers and, exactly when they are equal, the AS numbers (16 valuations); (3) in collisionHandling an Established sibling makes the calling connection lose, an OpenConfirm sibling is ceased iff the tie-break says so and otherwise the caller loses; the caller's OPEN handling turns a lost collision into its own cease(); (3c) the Cease event cannot be dropped: FSM.cease hands it to the event loop on every path, and next to the send only a channel that is closed exclusively by a function deferred in FSM.run (the FSM has ended) may be waited for; (3d) every exit of FSM.run takes the FSM off peer.fsms first, so a collision check never meets an FSM whose event loop is gone; (4) every cease() of a state with a connection sends NOTIFICATION(Cease) before closing it; incoming connections get their own FSM appended to peer.fsms under fsmsMu.",
+			Decided:     "(1) every case of a type switch on a `state` value in package server names a type that some state constructor actually produces (pointer types): a case on a type no FSM ever holds is constantly false, which is how collision detection was dead; (2) shouldCeaseOnCollision compares the BGP identifiers and, exactly when they are equal, the AS numbers (16 valuations); (3) in collisionHandling an Established sibling makes the calling connection lose, an OpenConfirm sibling is ceased iff the tie-break says so and otherwise the caller loses; the caller's OPEN handling turns a lost collision into its own cease(); (3c) the Cease event cannot be dropped: FSM.cease hands it to the event loop on every path, and next to the send only a channel that is closed exclusively by a function deferred in FSM.run (the FSM has ended) may be waited for; (3e) collisionHandling evaluates the state predicates inside a range loop over all of peer.fsms and leaves that loop early only with `the caller loses`; (3d) every exit of FSM.run takes the FSM off peer.fsms first, so a collision check never meets an FSM whose event loop is gone; (4) every cease() of a state with a connection sends NOTIFICATION(Cease) before closing it; incoming connections get their own FSM appended to peer.fsms under fsmsMu.",
 			NotDecided:  "`at most one Established under every interleaving of two connections` is schedule-quantified and not decided; only the detection predicate, the tie-break and the cease path are.",
 			TrustedBase: stdTrusted,
 		},
 		Run: runC24,
 		Controls: []Control{
+			{Name: "collision-check-stops-at-first-non-openconfirm", File: "protocols/bgp/server/peer.go", Old: "\t\tif !isOpenConfirm {\n\t\t\tcontinue\n\t\t}\n", New: "\t\tif !isOpenConfirm {\n\t\t\treturn false\n\t\t}\n", Expect: "collision-path"},
 			{Name: "ended-fsm-stays-listed", File: "protocols/bgp/server/fsm.go", Old: "\t\t\tfsm.peer.removeFSM(fsm)\n", New: "", Expect: "collision-path"},
 			{Name: "state-predicate-on-value-type", File: "protocols/bgp/server/peer.go", Old: "\tcase *establishedState:\n\t\treturn true", New: "\tcase establishedState:\n\t\treturn true", Expect: "state-switch-case-inhabited"},
 			{Name: "tie-break-ignores-as-on-equal-ids", File: "protocols/bgp/server/peer.go", Old: "\tif p.routerID == callingFSM.neighborID {\n\t\treturn p.localASN < callingFSM.peer.peerASN\n\t}\n", New: "", Expect: "collision-tie-break-table"},
@@ -333,6 +334,40 @@ func runC24(c *core.Ctx) {
 		rets, implicit := core.ExitsWithout(p.CFG(f), send)
 		c.Check(len(rets) == 0 && !implicit, "collision-path", f.Name()+" delivers the Cease event on every path", f.Decl.Pos(),
 			"FSM.cease can return without having sent Cease on the FSM's event channel (non-blocking send): the losing connection of a collision keeps running and both connections can reach Established")
+	}
+
+	// (3e) the collision check looks at EVERY other connection of the peer: the state predicates are evaluated inside a range
+	// loop over peer.fsms, and the loop is left early only with the verdict "the calling connection loses" (return true)
+	if f := c.MustFunc(srv + ".(*peer).collisionHandling"); f != nil {
+		fsmsF := p.Field(srv, "peer", "fsms")
+		var loop *ast.RangeStmt
+		ast.Inspect(f.Decl.Body, func(nd ast.Node) bool {
+			if rs, ok := nd.(*ast.RangeStmt); ok && loop == nil && core.FieldOf(f.Pkg, rs.X) == fsmsF && fsmsF != nil {
+				loop = rs
+			}
+			return true
+		})
+		c.Check(loop != nil, "collision-path", f.Name()+" walks all connections of the peer", f.Decl.Pos(), "collisionHandling has no loop over peer.fsms: with three or more connections (outgoing pending, one established, a new incoming one) the check sees one of them only and lets a second connection reach Established")
+		if loop != nil {
+			preds := core.Calls(f.Pkg, f.Decl.Body, core.KeyIs(srv+".isEstablishedState", srv+".isOpenConfirmState"))
+			inLoop := len(preds) > 0
+			for _, pc := range preds {
+				if pc.Pos() < loop.Body.Pos() || pc.Pos() > loop.Body.End() {
+					inLoop = false
+				}
+			}
+			c.Check(inLoop, "collision-path", f.Name()+" evaluates the state predicates for every connection", loop.Pos(), "the Established/OpenConfirm predicates are not evaluated inside the loop over peer.fsms")
+			okExits := true
+			pos := loop.Pos()
+			for _, ex := range loopExits(loop.Body) {
+				ret, isRet := ex.(*ast.ReturnStmt)
+				if !isRet || len(ret.Results) != 1 || core.ExprString(ret.Results[0]) != "true" {
+					okExits = false
+					pos = ex.Pos()
+				}
+			}
+			c.Check(okExits, "collision-path", f.Name()+" leaves the walk early only when the caller loses", pos, "the loop over the peer's connections is left early with a verdict other than `the calling connection loses`: connections behind that one are never examined")
+		}
 	}
 
 	// (3d) an FSM that has ended leaves the peer's list: after FSM.run returned nobody reads the event channel and the last
